@@ -11,11 +11,11 @@ def decode(p):
 
 
 SPEC = dict(
-    lean_modules=["Ecal.Props.C04", "Ecal.Props.C04Eval"],
+    lean_modules=["Ecal.Props.C04", "Ecal.Props.C04Eval", "Ecal.Props.C04Loops", "Ecal.Props.C04Program"],
     shards=12,
     rule=("cases = marker programs (x.mark(n) appends to an ordered trace): corpus of the repaired defects; exhaustive "
           "exit kind {fallthrough, break, continue, return, raise E1, raise E2 with detail+data, raise(), runtime error} x "
-          "14 except-clause sets (none, bare, one type, two types, with/without `as e`, `e`, `as e`, several clauses) x "
+          "20 except-clause sets (none, bare, one type, two types, with/without `as e`, `e`, `as e`, `\"T\" e`, the control-signal texts, several clauses) x "
           "otherwise x finally x context {top level, for-in loop, condition loop, function, range loop in function}; the "
           "same exits inside handler / otherwise / finally; re-entrant evaluation (a recursive or mutually recursive call from "
           "finally / except / otherwise re-evaluates the statement whose return/break/continue/error is still travelling); "
@@ -25,32 +25,44 @@ SPEC = dict(
           "(runtime error, raise through a called function) at every position of if/elif chains, in condition-loop guards and for-in "
           "iterables, inside and outside try; if and list/map loop families; random nestings of "
           "if/loop/try/function up to depth 4 (3000 quick, 100000 thorough). Compared: ordered marker trace, final value, "
-          "error TYPE (no message, no position). Non-trivial = the model's trace has at least two entries."),
+          "error type, class (runtime error / raised / return signal), raised detail and data, returned value (no message text, "
+          "no position); inexact fractional range steps are generated (elements of repeated float addition). Non-trivial = the model's trace has at least two entries."),
     exhaustive="exit kind x except-clause set x otherwise x finally x context, and the range/if/list/map families",
     trusted_base=[
         "the tree evaluated by the model is the one the real parser built (serialised by the harness); parser and lexer are not part of C04",
         "the evaluator model calls the proved combinators with closures over itself; that the surrounding model code (scopes, values, "
         "builtins) matches rt_*.go is established by the differential run only",
-        "range theorems are stated at Int for the end test the evaluator instantiates at Float (small integers behave alike)",
+        "IEEE-754: float64 order, equality and addition are exact on integers below 2^53 (NumEmbOn floatOps on that set is assumed, not proved)",
     ],
     assumptions=["programs with unbounded recursion or loops are outside (fuel), as the property allows"],
     decode=decode,
 )
 
 META = dict(
-    technique="Lean 4 theorems about the control-flow combinators the executable evaluator model calls + differential correspondence "
-              "of the whole model with Runtime.Eval on exhaustive and random marker programs",
-    level_text=("Proof: per-construct equations for arbitrary sub-computations (no bound on nesting): if_first_true, loop_guard, "
-                "loop_iter_step/loop_list, loop_range_inclusive_{pos,neg,equal_bounds}, sortBy_{perm,sorted} (map order), "
-                "break/continue never leave the innermost loop, return ends the innermost call, try_first_matching_except, "
-                "try_otherwise_iff_no_error, finally_exactly_once (all exit kinds), unhandled_propagates_unchanged, raise_fields."),
-    level_note=("Props/C04Eval.lean restates finally_exactly_once, otherwise-iff-no-error, first-matching-except, unhandled-unchanged, "
-                "break-innermost (condition loop), return-innermost and if-first-true for `eval` itself via wiring lemmas "
-                "(Lemmas/C04Wiring.lean: eval on a node of each statement kind IS the combinator over the evaluations of its children) "
-                "with node shapes from C07's WellFormed (Lemmas/C04Shape.lean). "
-                "Theorems are about the combinators (ifChain, guardLoop, iterLoop, tryCore, dispatchExcept, typedMatch, tryFinally, "
-                "callCore, raiseSig/errObject, rangeDone, sortBy) that Model/Eval.lean executes, not about the whole mutual evaluator; "
-                "the glue is covered by the correspondence run."),
+    technique="Lean 4 theorems about the control-flow combinators the executable evaluator model calls, wiring lemmas "
+              "(eval on a node of each statement kind IS the combinator over the evaluations of its children), eval-level "
+              "corollaries, one composed program-level theorem + differential correspondence of the whole model with Runtime.Eval",
+    level_text=("Proof (per construct, arbitrary sub-trees and fuel; the reference semantics IS this set of equations — there is no "
+                "independent Spec.exec and no refinement theorem: spec_refinement_partial): if_first_true/if_guard_error; "
+                "break/continue never leave the innermost loop (condition loop and for-in, at eval level; bindLoopVars raises no loop "
+                "signal); return ends the innermost call; first matching except / unhandled unchanged / a typed clause handles e iff "
+                "its type is listed (plain literals); otherwise iff no error; finally exactly once on every way out; raise fields; "
+                "map keys in byte order of their string forms (unconditional); statements sequencing and the composed "
+                "program_try_finally_signal. Loops over lists: loop_list is about the evaluator's iterator (reads the backing array "
+                "LIVE: element j is what the array holds when step j starts). Ranges: loop_range_runs_rangeVals (the loop over the "
+                "range step = forEach over rangeVals, on ANY carrier incl. Float), runBuiltin_range_next (the call's state machine "
+                "does that step) and the Int theorems (inclusive end, both directions, wrong direction empty, closed forms) which "
+                "rangeVals_emb transfers to any carrier on which the integers in play embed faithfully."),
+    level_note=("READING of 'inclusive range': the elements of range(a, b, s) are a, a+s, a+2s, ... by repeated addition in float64 "
+                "while not beyond b; b itself is delivered iff the accumulation hits it exactly. For integer-valued arguments below "
+                "2^53 that is the mathematical inclusive range (IEEE-754 exactness is an assumption here: Float is opaque to the Lean "
+                "kernel, NumEmbOn floatOps is not proved); for inexact fractional steps the end can be missed "
+                "(range(0, 0.3, 0.1) gives 0, 0.1, 0.2) — Go and the model agree on it, it is recorded as the reading, not as a deviation. "
+                "NOT proved (loop_range_inclusive_partial): that eval of the call expression `range(...)` inside a for-in node is the "
+                "rangeIter step (evalIdent -> callFunction -> argument evaluation) and that the block leaves the loop's range entry alone. "
+                "break/continue DO cross a call boundary (func b() { break } called in a loop ends the loop): Go = model, generated, "
+                "not excluded by the property text. The `_wf` theorems take node shapes from C07's WellFormed; the C04 driver evaluates "
+                "WellFormed on every tree it runs. eval-level theorems keep scope creation as a hypothesis (newChild_ok shows it always holds)."),
 )
 
 
